@@ -207,7 +207,7 @@ def gen_configs(rng, count, tier):
             lo, hi = -r.choice([0.6, 0.8, 0.95]), r.choice([0.6, 0.8, 0.95])
             if con == "plane":
                 lo, hi = -0.5, 0.5
-        maxit = 50 if r.below(10) < 7 else r.choice([0, 1, 3, 5])
+        maxit = 50 if r.below(10) < 7 else r.choice([1, 2, 3, 5])   # setMaxIterations(0) is rejected by the API
         obs = None
         if r.chance(1, 2):
             ax = r.below(n)
